@@ -55,7 +55,9 @@ type Spec struct {
 	Wrap      string // none | wrapErrors | wrapErrorsUsing
 	KeyLeaf   bool
 	// swarm-style per-world knobs
-	W          [11]int // weights: leaf, basic, nbasic, struct, ptr, slice, map, ustruct, ref, enum, tptr
+	W          [12]int // weights: leaf, basic, nbasic, struct, ptr, slice, map, ustruct, ref, enum, tptr, sptr
+	UseZero    bool    // goverter:useZeroValueOnPointerInconsistency (enables *T -> T positions)
+	UpdRoot    map[int]bool // roots that also get an update-signature method
 	UPlainPct  int     // chance that an unnamed struct has only basic fields (identical on both sides)
 	IgnoreMissing bool
 	AutoMethodSrc bool
@@ -85,7 +87,12 @@ func NewSpec(seed uint64, prop string) *Spec {
 		rng: rand.New(rand.NewPCG(seed, 0x5eed)), maxDepth: 4}
 	r := s.rng
 	s.Format = []string{"struct", "struct", "function", "variables"}[r.IntN(4)]
-	base := [11]int{0, 20, 6, 16, 12, 12, 10, 3, 3, 0, 4}
+	base := [12]int{0, 20, 6, 16, 12, 12, 10, 3, 3, 0, 4, 0}
+	s.UseZero = r.IntN(3) == 0
+	if s.UseZero {
+		base[11] = 5
+	}
+	s.UpdRoot = map[int]bool{}
 	if prop == "C04" {
 		base[9] = 6
 	}
@@ -122,6 +129,7 @@ func NewSpec(seed uint64, prop string) *Spec {
 		root := s.genStruct(0)
 		s.Roots = append(s.Roots, root)
 		s.PtrRoot[root.ID] = r.IntN(3) == 0
+		s.UpdRoot[root.ID] = prop == "C04" && s.Format == "struct" && r.IntN(3) == 0
 	}
 	if prop == "C07" && r.IntN(2) == 0 {
 		// a chain of unnamed containers (all converted inline, inside one generated method)
@@ -210,7 +218,7 @@ func (s *Spec) mkField(i int, n *node, parent *node) *field {
 	if s.Prop == "C07" && s.rng.IntN(3) == 0 {
 		f.TName = fmt.Sprintf("G%d", i)
 	}
-	if n.Kind != "ptr" && n.Kind != "leaf" && s.rng.IntN(8) == 0 {
+	if n.Kind != "ptr" && n.Kind != "leaf" && n.Kind != "sptr" && n.Kind != "tptr" && s.rng.IntN(8) == 0 {
 		f.PtrOnT = true
 	}
 	if n.Kind == "leaf" {
@@ -351,10 +359,16 @@ func (s *Spec) gen(depth int, parent *node) *node {
 		return n
 	case 10:
 		e := s.gen(depth+1, nil)
-		if e.Kind == "ptr" || e.Kind == "tptr" || e.Kind == "leaf" {
+		if e.Kind == "ptr" || e.Kind == "tptr" || e.Kind == "sptr" || e.Kind == "leaf" {
 			return e
 		}
 		return &node{Kind: "tptr", Elem: e}
+	case 11:
+		e := s.gen(depth+1, nil)
+		if e.Kind == "ptr" || e.Kind == "tptr" || e.Kind == "sptr" || e.Kind == "leaf" {
+			return e
+		}
+		return &node{Kind: "sptr", Elem: e}
 	case 9:
 		n := &node{Kind: "enum", ID: s.id()}
 		s.Enums[n.ID] = []int{2, 3, 5, 8, 9, 12, 16}[r.IntN(7)]
@@ -419,6 +433,12 @@ func (s *Spec) expr(n *node, side string) string {
 		return fmt.Sprintf("Sh%d", n.ID)
 	case "array":
 		return fmt.Sprintf("[%d]%s", n.ID, s.expr(n.Elem, side))
+	case "sptr":
+		// *T on the source side, T on the target side (useZeroValueOnPointerInconsistency)
+		if side == "S" {
+			return "*" + s.expr(n.Elem, side)
+		}
+		return s.expr(n.Elem, side)
 	case "tptr":
 		// T on the source side, *T on the target side (any position)
 		if side == "T" {
@@ -551,6 +571,8 @@ type methodSpec struct {
 	In   string
 	Out  string
 	Doc  []string
+	// Update: update-signature method `Name(source In, target *T)`; Out holds T.
+	Update bool
 }
 
 // methods lists the declared converter methods: the roots in several container positions,
@@ -574,6 +596,9 @@ func (s *Spec) methods(twin bool) []methodSpec {
 		}
 		if s.PtrRoot[r.ID] {
 			ms = append(ms, methodSpec{Name: fmt.Sprintf("ConvPtr%d", r.ID), In: "*" + S, Out: out("*" + T)})
+		}
+		if s.UpdRoot[r.ID] && !twin {
+			ms = append(ms, methodSpec{Name: fmt.Sprintf("Upd%d", r.ID), In: S, Out: T, Update: true, Doc: []string{"goverter:update target"}})
 		}
 	}
 	// explicit struct methods (needed for goverter:map lines)
@@ -663,6 +688,9 @@ func (s *Spec) ConverterSource() string {
 		if s.IgnoreMissing {
 			lines = append(lines, "// goverter:ignoreMissing")
 		}
+		if s.UseZero {
+			lines = append(lines, "// goverter:useZeroValueOnPointerInconsistency")
+		}
 		if !twin {
 			switch s.Wrap {
 			case "wrapErrors":
@@ -697,7 +725,11 @@ func (s *Spec) ConverterSource() string {
 			if twin && s.Format == "function" {
 				n = "Twin" + n
 			}
-			fmt.Fprintf(&b, "\t%s(source %s) %s\n", n, m.In, m.Out)
+			if m.Update {
+				fmt.Fprintf(&b, "\t%s(source %s, target *%s)\n", n, m.In, m.Out)
+			} else {
+				fmt.Fprintf(&b, "\t%s(source %s) %s\n", n, m.In, m.Out)
+			}
 		}
 		b.WriteString("}\n\n")
 	}
@@ -737,7 +769,7 @@ func (s *Spec) exprsIn(n *node, out map[string]bool, seen map[int]bool) {
 		for _, f := range n.Fields {
 			s.exprsIn(f.N, out, seen)
 		}
-	case "ptr", "slice", "tptr", "array":
+	case "ptr", "slice", "tptr", "sptr", "array":
 		s.exprsIn(n.Elem, out, seen)
 	case "map":
 		s.exprsIn(n.Key, out, seen)
@@ -828,7 +860,7 @@ func (s *Spec) EnumTargetSource() string {
 // clause matrix.
 func ManualSpec(kind, position string, ignoreMissing bool, format, wrap string) *Spec {
 	s := &Spec{Prop: "C07", Structs: map[int]*node{}, NBasics: map[int]string{}, Leaves: map[int]*leafInfo{}, Enums: map[int]int{},
-		PtrRoot: map[int]bool{}, MethodSkip: map[string]bool{}, MethodWrapOff: map[string]bool{}, Shared: map[int]*node{}, Format: format, Wrap: wrap, IgnoreMissing: ignoreMissing, SkipCopyMode: "none",
+		PtrRoot: map[int]bool{}, UpdRoot: map[int]bool{}, MethodSkip: map[string]bool{}, MethodWrapOff: map[string]bool{}, Shared: map[int]*node{}, Format: format, Wrap: wrap, IgnoreMissing: ignoreMissing, SkipCopyMode: "none",
 		rng: rand.New(rand.NewPCG(1, 2))}
 	root := &node{Kind: "struct", ID: s.id()}
 	s.Structs[root.ID] = root
